@@ -21,9 +21,9 @@ EXTENDS AcctMgmt
 
 Trace == ndJsonDeserialize("trace.ndjson")
 
-VARIABLES l, drift, driftAt, tno, last
+VARIABLES l, drift, driftAt, tno, last, uvs
 
-tvars == <<vars, l, drift, driftAt, tno, last>>
+tvars == <<vars, l, drift, driftAt, tno, last, uvs>>
 
 Ev == Trace[l]
 IsEv(e) == l <= Len(Trace) /\ Ev.e = e
@@ -40,6 +40,7 @@ SnapOf(x) ==
    msgs   |-> {[acct |-> r.acct, mbox |-> r.mbox, uid |-> r.uid, body |-> r.body, flags |-> ToSet(r.flags)]
                : r \in ToSet(x.msgs)},
    nuv    |-> x.nuv]
+(* the design's own snapshot of the empty installation *)
 
 CmdOf(c) == [k |-> c.k, sp |-> c.sp, pw |-> c.pw, cf |-> c.cf, su |-> c.su, mb |-> c.mb, mb2 |-> c.mb2, spc |-> c.spc,
              fl |-> ToSet(c.fl), uidm |-> c.uidm, lo |-> c.lo, hi |-> c.hi, body |-> c.body, op |-> c.op]
@@ -48,14 +49,14 @@ UsedBy(c, x, r) == {d \in Devs : Step(c, x, Devs \ {d}) # r}
 
 TInit ==
   /\ Init
-  /\ l = 1 /\ drift = FALSE /\ driftAt = 0 /\ tno = 0 /\ last = Derive(EmptySnap)
+  /\ l = 1 /\ drift = FALSE /\ driftAt = 0 /\ tno = 0 /\ last = Derive(EmptySnap) /\ uvs = {}
   /\ TLCSet(1, {})
 
 TReset ==
   /\ IsEv("Cfg")
   /\ s' = Derive(EmptySnap) /\ step' = 0 /\ seen' = {} /\ used' = {} /\ obs' = [viol |-> {}] /\ phase' = "run"
   /\ hist' = <<>>
-  /\ last' = SnapOf(Ev.snap)
+  /\ last' = SnapOf(Ev.snap) /\ uvs' = {}
   /\ l' = l + 1 /\ tno' = Ev.t
   /\ drift' = (SnapOf(Ev.snap) # Derive(EmptySnap))
   /\ driftAt' = IF drift' THEN Ev.seq ELSE 0
@@ -68,6 +69,7 @@ JudgeCmd(o, e, before, sn, u) ==
       a == SnapOf(e.snap) IN
   [viol |-> o.viol \cup Tag(StepViol(c, e.res, e.ez, before, a) \cup StateViol(a)
                              \cup (IF UidReused(sn, a) THEN {"UidReused"} ELSE {})
+                             \cup (IF UvRecycled(uvs, c, before, a) THEN {"UvRecycled"} ELSE {})
                              \cup (IF e.panic THEN {"Panic"} ELSE {}), u)]
 JudgeList(o, e, before, u) ==
   [viol |-> o.viol \cup Tag(ListViol(CmdOf(e.c), e.res, e.ez, ToSet(e.out), before)
@@ -77,13 +79,14 @@ C_Cmd ==
   /\ IsEv("Cmd") /\ ~Ev.panic /\ phase = "run"
   /\ LET c == CmdOf(Ev.c)
          r == Step(c, s, Devs) IN
-     /\ r.res = Ev.res /\ r.ez = Ev.ez /\ r.s = SnapOf(Ev.snap)
-     /\ s' = r.s
+     /\ r.res = Ev.res /\ r.ez = Ev.ez /\ SameSnap(s, r.s, SnapOf(Ev.snap))
+     /\ s' = [SnapOf(Ev.snap) EXCEPT !.nuv = r.s.nuv]
      /\ step' = step + 1
-     /\ seen' = seen \cup Keys(r.s)
+     /\ seen' = seen \cup Keys(s')
+     /\ uvs' = uvs \cup UvOf(s) \cup UvOf(s')
      /\ used' = used \cup UsedBy(c, s, r)
      /\ obs' = JudgeCmd(obs, Ev, s, seen, UsedBy(c, s, r))
-     /\ last' = r.s
+     /\ last' = s'
   /\ UNCHANGED <<phase, hist>>
 
 C_List ==
@@ -96,12 +99,12 @@ C_List ==
      /\ LET u == (IF ~x.ok THEN {"ExitZero"} \cap Devs ELSE {}) \cup {d \in Devs : Listing(c, s, Devs \ {d}) # x} IN
         /\ used' = used \cup u
         /\ obs' = JudgeList(obs, Ev, s, u)
-  /\ UNCHANGED <<s, step, seen, phase, hist, last>>
+  /\ UNCHANGED <<s, step, seen, phase, hist, last, uvs>>
 
 C_End ==
   /\ IsEv("End") /\ phase = "run"
   /\ phase' = "end"
-  /\ UNCHANGED <<s, step, seen, used, obs, hist, last>>
+  /\ UNCHANGED <<s, step, seen, used, obs, hist, last, uvs>>
 
 Conform == C_Cmd \/ C_List \/ C_End
 
@@ -121,6 +124,7 @@ M_Step ==
               [] OTHER -> obs
   /\ seen' = IF Ev.e = "Cmd" THEN seen \cup Keys(SnapOf(Ev.snap)) ELSE seen
   /\ last' = IF Ev.e = "Cmd" THEN SnapOf(Ev.snap) ELSE last
+  /\ uvs' = IF Ev.e = "Cmd" THEN uvs \cup UvOf(last) \cup UvOf(SnapOf(Ev.snap)) ELSE uvs
   /\ l' = l + 1
   /\ UNCHANGED <<s, step, used, phase, hist, tno>>
   /\ IF Ev.e = "End" THEN Publish(TRUE, driftAt', obs', used) ELSE TRUE
